@@ -1,5 +1,6 @@
 import VerifModel.Gen.Appearance
 import VerifModel.Spec.Appearance
+import VerifModel.Model.PlotKinds
 /-
   Model for C17: an abstract figure record and `applyOptions : Cfg → FigProps`.
 
@@ -218,10 +219,11 @@ def isSeries : Field → Bool
   | .seriesColor | .seriesStyle | .seriesWidth | .seriesMarker | .seriesMarkerSize => true
   | _ => false
 
-/-- a property is shown when it is set, applicable to the plot kind and not made void by a documented
-    dependency (no grid, hidden legend, no annotations, margins removed) -/
+/-- a property is shown when it is set, applicable to the plot kind (and the plot's class does not skip
+    it: `PlotKinds.shown`) and not made void by a documented dependency (no grid, hidden legend, no
+    annotations, margins removed) -/
 def observable (c : Cfg) (fp : FigProps) (f : Field) : Bool :=
-  Spec.Appearance.applicable c.plot f &&
+  PlotKinds.shown c.plot f &&
   match f with
   | .gridColor | .gridStyle | .gridWidth => (fp .gridOff).isNone
   | .legendEntries | .legendLoc => fp .legendSize != some "0"
@@ -229,19 +231,56 @@ def observable (c : Cfg) (fp : FigProps) (f : Field) : Bool :=
   | .marginLeft | .marginRight | .marginTop | .marginBottom => (fp .marginsRemoved).isNone
   | _ => true
 
+/-- result of handing the user's x limits / x ticks to the axis -/
+inductive AxisValue
+  | ok (v : String)
+  /-- `datetime.datetime(y, m, d)` raises ValueError: not a calendar date -/
+  | badDate
+  /-- not a list of whole numbers (outside the op encoding of dates) -/
+  | unreadable
+
+/-- `_adjust_axis`: on a time-like axis the x limits and x ticks are dates and go through
+    `verif.util.date_to_datenum`; everything else reaches the axis as given -/
+def axisValue (c : Cfg) (f : Field) (v : String) : AxisValue :=
+  if (f == .xLim || f == .xTicks) && PlotKinds.convertsDates c.plot then
+    match (items v).mapM String.toNat? with
+    | some ds =>
+      match PlotKinds.datesToDatenums ds with
+      | some ns => .ok (",".intercalate (ns.map toString))
+      | none => .badDate
+    | none => .unreadable
+  else .ok v
+
 def renderField (c : Cfg) (f : Field) (v : String) : String :=
   let shown :=
     if isSeries f then ",".intercalate (cyclic c.nSeries (items v))
     else if f == .fileName then extOf v
-    else escape v
+    else match axisValue c f v with
+      | .ok w => escape w
+      | .badDate => "EXC:ValueError"
+      | .unreadable => "ERR"
   f.name ++ "=" ++ shown
 
-def render (c : Cfg) (fp : FigProps) : String :=
-  let parts := Field.all.filterMap fun f =>
+/-- the properties shown in the canonical line: (property, rendering) -/
+def shownParts (c : Cfg) (fp : FigProps) : List (Field × String) :=
+  Field.all.filterMap fun f =>
     match fp f with
-    | some v => if observable c fp f then some (renderField c f v) else none
+    | some v => if observable c fp f then some (f, renderField c f v) else none
     | none => none
-  if parts.isEmpty then "-" else " ".intercalate parts
+
+/-- does setting the x limits / ticks fail on this figure (a date that is no calendar date)? -/
+def axisFailure (c : Cfg) (fp : FigProps) : Option String :=
+  [Field.xTicks, Field.xLim].findSome? fun f =>
+    match fp f with
+    | some v => (match axisValue c f v with | .ok _ => none | .badDate => some "EXC:ValueError" | .unreadable => some "ERR")
+    | none => none
+
+def render (c : Cfg) (fp : FigProps) : String :=
+  match axisFailure c fp with
+  | some e => e
+  | none =>
+    let parts := (shownParts c fp).map (·.2)
+    if parts.isEmpty then "-" else " ".intercalate parts
 
 /-- fields of flags in `keep` whose rendering differs between two configurations (independence op) -/
 def differing (c c' : Cfg) (keep : List String) : List String :=
